@@ -292,15 +292,16 @@ func H_C11_set_shared_scalars() {
 	c := b.SubList(0, 0)
 	d := a.Concat(b)
 	e := NewListOf(s, 2)
+	f := a.Concat(NewList(y)) // one element: fits into one slot of spare capacity behind a
 	rootIsList := nondetIntRange(0, 1) == 1
 	var root any
 	if rootIsList {
-		root = NewList(a, b, c, d, e)
+		root = NewList(a, b, c, d, e, f)
 	} else {
-		root = NewObject("a", a, "b", b, "c", c, "d", d, "e", e)
+		root = NewObject("a", a, "b", b, "c", c, "d", d, "e", e, "f", f)
 	}
 	var segs []hSeg
-	i := nondetIntRange(0, 4)
+	i := nondetIntRange(0, 5)
 	j := nondetIntRange(0, 3) // 3 = the length of the shortest lists here: a write at index == count appends
 	if rootIsList {
 		segs = []hSeg{{sigil: '#', idx: i, text: string([]byte{byte('0' + i)}), num: true}}
